@@ -11,6 +11,7 @@ import (
 	"path/filepath"
 	"strings"
 	"sync"
+	"sync/atomic"
 	"time"
 
 	"github.com/glowlabs-org/gca-backend/glow"
@@ -24,8 +25,9 @@ type Env struct {
 	T        *Trace
 	Dir      string
 	Srv      *server.GCAServer
-	Live     *server.GCAServer // the server object last seen by a hook (set during start-up too)
+	live     atomic.Pointer[server.GCAServer] // the server object last seen by a hook (set during start-up too)
 	WithDisk bool
+	NoResp   bool // concurrent workloads: replies are not recorded (they cannot be matched to lock events)
 	Quiet    map[string]bool // hook events not recorded
 
 	wmu     sync.Mutex
@@ -49,7 +51,7 @@ func NewEnv(t *Trace) *Env {
 	}
 	server.VerifHook = e.onHook
 	server.VerifYieldHook = func(s *server.GCAServer, p string) {
-		e.Live = s
+		e.live.Store(s)
 		if y := e.Yield; y != nil {
 			y(s, p)
 		}
@@ -102,7 +104,7 @@ func (e *Env) post(s *server.GCAServer, locked bool) J {
 
 // onHook converts the implementation's trace points into abstract events.
 func (e *Env) onHook(s *server.GCAServer, _ uint64, ev string, args []interface{}) {
-	e.Live = s
+	e.live.Store(s)
 	if e.Quiet[ev] {
 		e.notify(ev)
 		return
@@ -376,6 +378,9 @@ func (e *Env) BuildAuth(s AuthSpec) glow.EquipmentAuthorization {
 // Authorize posts an authorization through the JSON endpoint.
 func (e *Env) Authorize(a glow.EquipmentAuthorization) int {
 	st, body := e.PostJSON("/api/v1/authorize-equipment", a)
+	if e.NoResp {
+		return st
+	}
 	e.T.Emit(J{"a": "AuthorizeResp", "id": Clamp30(uint64(a.ShortID)), "status": st, "body": strings.TrimSpace(body)})
 	return st
 }
@@ -406,7 +411,7 @@ func (e *Env) cur() *server.GCAServer {
 	if e.Srv != nil {
 		return e.Srv
 	}
-	return e.Live
+	return e.live.Load()
 }
 
 // SendUDP sends a datagram to the real UDP port and waits for the listener
@@ -490,6 +495,9 @@ func (e *Env) BuildServer(s ServerSpec) server.AuthorizedServer {
 // AuthorizeServer posts a server entry.
 func (e *Env) AuthorizeServer(as server.AuthorizedServer) int {
 	st, _ := e.PostJSON("/api/v1/authorized-servers", as)
+	if e.NoResp {
+		return st
+	}
 	e.T.Emit(J{"a": "AuthorizeServerResp", "as": e.Server(ToRawServer(as)), "status": st})
 	return st
 }
@@ -523,6 +531,9 @@ func (e *Env) BuildMigration(dev, newGCA string, newID uint32, servers []ServerS
 
 func (e *Env) Migrate(m server.EquipmentMigration) int {
 	st, _ := e.PostJSON("/api/v1/equipment-migrate", m)
+	if e.NoResp {
+		return st
+	}
 	e.T.Emit(J{"a": "MigrateResp", "m": e.Migration(ToRawMigration(m)), "status": st})
 	return st
 }
@@ -614,4 +625,16 @@ func (e *Env) LoadServerKey(dir string) {
 		copy(priv[:], b[32:])
 		e.KR.Add("srv", pub, priv)
 	}
+}
+
+// SendUDPNoWait sends a datagram to the UDP port without waiting for the
+// listener (concurrent workloads).
+func (e *Env) SendUDPNoWait(b []byte) {
+	_, _, up := e.cur().Ports()
+	conn, err := net.Dial("udp", fmt.Sprintf("127.0.0.1:%d", up))
+	if err != nil {
+		return
+	}
+	conn.Write(b)
+	conn.Close()
 }
